@@ -119,6 +119,56 @@ func VerifC01ARPA() {
 	verifrt.Cover("returned")
 }
 
+// VerifC01ARPAText: address-shaped texts (IPv4 dotted quads with 1..3-digit
+// octets, IPv6 texts with "::", hex fields and a dotted-quad tail, zones) in
+// front of the roots: what netip.ParseAddr accepts or half-accepts must not
+// make the decoders panic.
+func VerifC01ARPAText() {
+	var b []byte
+	if verifrt.Bool2() {
+		b = append(b, ':', ':')
+	}
+	for nf := verifrt.Len(2); nf > 0; nf-- {
+		for w := 1 + verifrt.Choice(2); w > 0; w-- {
+			c := verifrt.Byte()
+			verifrt.Assume(c >= '0' && c <= '9' || c >= 'a' && c <= 'f' || c >= 'A' && c <= 'F')
+			b = append(b, c)
+		}
+		b = append(b, ':')
+		if verifrt.Bool2() {
+			b = append(b, ':')
+		}
+	}
+	for k, n := 0, verifrt.Len(4); k < n; k++ {
+		if k > 0 {
+			b = append(b, '.')
+		}
+		for w := 1 + verifrt.Choice(2); w > 0; w-- {
+			d := verifrt.Byte()
+			verifrt.Assume(d >= '0' && d <= '9')
+			b = append(b, d)
+		}
+	}
+	if verifrt.Bool2() {
+		b = append(b, '%')
+		z := verifrt.Byte()
+		verifrt.Assume(z < 0x80 && z != '.')
+		b = append(b, z)
+	}
+	b = append(b, '.')
+	root := [...]string{"in-addr.arpa", "ip6.arpa", "IN-ADDR.ARPA.", "Ip6.Arpa."}[verifrt.Choice(4)]
+	s := string(b) + root
+	switch verifrt.Choice(3) {
+	case 0:
+		_, _ = IPFromReversedAddr(s)
+	case 1:
+		_, _ = PrefixFromReversedAddr(s)
+	default:
+		_, _ = ExtractReversedAddr(s)
+	}
+	verifrt.Cover("returned")
+}
+
 // VerifC01Nibbles: ip6.arpa names of 0..34 one-byte labels with one label
 // 2..3 bytes wide at any position (the label scan of ExtractReversedAddr).
 func VerifC01Nibbles() {
